@@ -7,6 +7,7 @@ import (
 	"encoding/json"
 	"errors"
 	"fmt"
+	"regexp"
 	"sort"
 	"strings"
 	"testing"
@@ -78,6 +79,7 @@ type family struct {
 	layout *fedlab.Layout
 	ops    []*fedlab.Op
 	chains []*fedlab.Op // spine operations for the nested-chain placements
+	split  []string     // curated: object fields split between the deferred fragment and its surroundings
 }
 
 func mustSchema(sdl string) *gast.Schema {
@@ -152,8 +154,41 @@ func families(run *vk.Run) []*family {
 		}
 		sp.f.chains = append(sp.f.chains, op)
 	}
+	// a deferred fragment that selects fields of SEVERAL objects which are also
+	// selected outside the fragment (the fragment's fields are merged into object
+	// fields that already exist: where is the fragment mounted?)
+	fc.split = splitOps([]string{"me", `user(id: "u1")`, "users"}, [][3]string{{"favorite", "title", "price"}, {"reviews", "body", "stars"}, {"friends", "name", "nick"}})
+	fr.split = splitOps([]string{`item(id: "i1")`, "items"}, [][3]string{{"spec", "code", "note"}, {"dims", "w", "h"}, {"maker", "label", "label"}})
 	return []*family{fc, fa, fr}
 }
+
+// splitOps: for every ordered pair (A, B) of object fields of the root's type:
+// A{a1} [... @defer {A{a2} B{b2}}] B{b1} in all 6 orders of the three members,
+// plus the variant where only the deferred fragment selects B.
+func splitOps(roots []string, objs [][3]string) []string {
+	var out []string
+	for _, root := range roots {
+		for i, a := range objs {
+			for j, b := range objs {
+				if i == j {
+					continue
+				}
+				m := []string{
+					a[0] + " {" + a[1] + "}",
+					"... @defer {" + a[0] + " {" + a[2] + "} " + b[0] + " {" + b[2] + "}}",
+					b[0] + " {" + b[1] + "}",
+				}
+				for _, ord := range [][3]int{{0, 1, 2}, {0, 2, 1}, {1, 0, 2}, {1, 2, 0}, {2, 0, 1}, {2, 1, 0}} {
+					out = append(out, "{"+root+" {"+m[ord[0]]+" "+m[ord[1]]+" "+m[ord[2]]+"}}")
+				}
+				out = append(out, "{"+root+" {"+m[0]+" "+m[1]+"}}", "{"+root+" {"+m[1]+" "+m[0]+"}}")
+			}
+		}
+	}
+	return out
+}
+
+var deferDirective = regexp.MustCompile(`@defer(\([^)]*\))?`)
 
 type fail struct{ clause, site, detail string }
 
@@ -463,8 +498,13 @@ func TestCheck(t *testing.T) {
 			if err != nil {
 				t.Fatal(err)
 			}
-			for bi, base := range append(append([]*fedlab.Op(nil), f.ops...), f.chains...) {
-				isChain := bi >= len(f.ops)
+			bases := append(append([]*fedlab.Op(nil), f.ops...), f.chains...)
+			for _, q := range f.split {
+				bases = append(bases, &fedlab.Op{Kind: "query", Raw: deferDirective.ReplaceAllString(q, ""), Note: q})
+			}
+			for bi, base := range bases {
+				isChain := bi >= len(f.ops) && bi < len(f.ops)+len(f.chains)
+				isSplit := bi >= len(f.ops)+len(f.chains)
 				caseNo++
 				if rin == nil && !isChain && !run.Mine(caseNo) {
 					continue
@@ -496,6 +536,11 @@ func TestCheck(t *testing.T) {
 					// nested chains: up to seven nested @defer levels with a field selected
 					// again on another level; sharded by variant
 					variants = fedlab.DeferChainVariants(base, run.Thorough())
+				}
+				if isSplit {
+					// the curated operation itself is the only variant
+					variants = []*fedlab.Op{{Kind: "query", Raw: base.Note}}
+					run.Count("split_object_operations", 1)
 				}
 				for vi, op := range variants {
 					if isChain && rin == nil && !run.Mine(caseNo+int64(vi)) {
